@@ -416,7 +416,11 @@ def parse_view(t):
         cb = [t.i() for _ in range(n)]
     t.expect("O")
     o = t.array()
-    return dict(m=m, v=v, e=e, c=c, cb=cb, o=o)
+    oc = None
+    if t.peek() == "OC":
+        t.s()
+        oc = t.array()
+    return dict(m=m, v=v, e=e, c=c, cb=cb, o=o, oc=oc)
 
 
 def fmt_arr(a):
@@ -738,10 +742,10 @@ class Checker:
             ctx.violation(base + ":elements", "%s element at %s is %s expected %s (view %s)" % (what, [int(x) for x in np.unravel_index(k, exp.shape)], v["data"][k], eflat[k], fmt_arr(v)), det)
         if v["data"] is not None:
             self.elements += len(v["data"])
-        for route, name in (("e", "eval_row"), ("c", "eval_col"), ("o", "eval_out")):
-            r = rec[route]
+        for route, name in (("e", "eval_row"), ("c", "eval_col"), ("o", "eval_out"), ("oc", "eval_out_colmajor")):
+            r = rec.get(route)
             if r is None:
-                if route == "o":
+                if route in ("o", "oc"):
                     continue
                 ctx.violation(base + ":" + name, "%s: evaluation (%s) gives Nothing" % (what, name), det)
                 continue
